@@ -328,6 +328,20 @@ def r14_5(chk, cr, mutators, fx):
             items = dict_items(arg) if arg is not None else None
             if items:
                 reuse_keys |= {k for k, _, _ in items}
+    # {**stored, **current}: a new dictionary in which the later source wins - every key of the fresh items after the stored ones
+    for e in ev.events:
+        if e.kind != "assign" or e.value is None:
+            continue
+        for a in find_atoms(e.value, lambda a: a[0] == "dict" and any(k.key() == "'**'" or k.key() == "**" for k, _ in a[1])):
+            srcs = [v for k, v in a[1]]
+            stored_at = [i for i, v in enumerate(srcs) if "cif_data" in v.key() and "self.properties" in v.key()]
+            if not stored_at:
+                continue
+            cached_used = True
+            for v in srcs[max(stored_at) + 1:]:
+                items = dict_items(v)
+                if items:
+                    reuse_keys |= {k for k, _, _ in items}
     if not cached_used:
         for k in state_keys:
             chk.ob("R14.5", CR, q, f"key '{k}' is always computed from the current state (no cached dictionary is reused)", True,
